@@ -26,6 +26,8 @@
 //                      defaults); the client's socket address inside X-Forwarded-For is printed @R;
 //                      header names are compared in canonical MIME form.
 //   client response  : Date, Content-Length, Transfer-Encoding, Connection (written by the servers).
+//   304 responses    : net/http's server drops Content-Type from every 304 it writes (both the fake
+//                      upstream and the server in front of the proxy), so it is not expected there.
 //   upstream response: the fake upstream suppresses net/http's Content-Type sniffing when the
 //                      script has no Content-Type, so "no Content-Type" really is sent.
 package main
@@ -615,7 +617,7 @@ func genOp(r *kit.Rng) string {
 	// upstream response
 	status := statuses[r.Intn(len(statuses))]
 	var rhs []hdr
-	if r.Chance(85) {
+	if status != 304 && r.Chance(85) { // net/http servers never send Content-Type with a 304
 		rhs = append(rhs, hdr{"Content-Type", genVals(r, "Content-Type")[:1]})
 	}
 	for _, name := range pickDistinct(r, respHeaderPool, r.Pick(25, 30, 25, 12, 8)) {
